@@ -153,8 +153,10 @@ Lens == {PLen, LenC("small", 0, "none", FALSE)}
 (* "query" /upload/?Week=..%2Fx&X=9                                          *)
 Paths == {"root", "named", "dotdot", "deep", "query"}
 (* how the JSON text is laid out: "compact"; "pretty" (indented, CRLF line   *)
-(* ends, blanks after colons); "reversed" (fields in reverse order)          *)
-Layouts == {"compact", "pretty", "reversed"}
+(* ends, blanks after colons); "reversed" (fields in reverse order); and the *)
+(* loose layouts of Server.tla: a second JSON value and text after the       *)
+(* report, an unknown field, the Week key twice (first a hostile one)        *)
+Layouts == {"compact", "pretty", "reversed"} \cup LooseLayouts
 (* the LastWeek field (never validated, part of the stored content): 0 "",   *)
 (* 1 a date, 2 non-ASCII text with U+2028, 3 HTML/JSON special characters,   *)
 (* 4 a path                                                                  *)
